@@ -415,3 +415,21 @@ package cluster
 //@   before RPCGetCollection requires arg1.UserId == userId && arg1.CollectionId == collectionId && arg1.RPCRequestArgs.Dest == callres(RendezvousHash, 1, 0)[0] && callarg(RendezvousHash, 1, 0) == userId && callarg(RendezvousHash, 1, 1) == c.Servers
 //@   ensures ncalls(RPCGetCollection) == 1
 //@   ensures result1 == nil ==> callres(RPCGetCollection, 1, 0) == nil
+
+// ---- which records leave this node at start-up (properties C13, C14) ----
+// Every stored collection record is classified on its own: the user id is the part of ITS key
+// before the first delimiter, the destination is the routing owner of that user id over the
+// node's server list (one RendezvousHash call per record, nothing carried over from the previous
+// record), and a record whose owner is another server is put, under its own key and with its
+// own value, into the postage of exactly that server; a record this node owns is left alone.
+//@ func (*ClusterNode).syncUserCollections$1$1
+//@   property C13 C14
+//@   safety -overflow -nil -index
+//@   allocates
+//@   requires len(c.Servers) >= 1
+//@   ensures result == nil && ncalls(RendezvousHash) == 1 && ncalls(Split) == 1
+//@   ensures callarg(Split, 1, 0) == string(k) && callarg(Split, 1, 1) == "/" && callarg(RendezvousHash, 1, 0) == callres(Split, 1, 0)[0] && callarg(RendezvousHash, 1, 1) == c.Servers && callarg(RendezvousHash, 1, 2) == 1
+//@   ensures callres(RendezvousHash, 1, 0)[0] != c.MyHostname ==> contains(postage, callres(RendezvousHash, 1, 0)[0])
+//@   ensures callres(RendezvousHash, 1, 0)[0] != c.MyHostname && !old(contains(postage, callres(RendezvousHash, 1, 0)[0])) ==> postage[callres(RendezvousHash, 1, 0)[0]].RPCRequestArgs.Dest == callres(RendezvousHash, 1, 0)[0]
+//@   ensures callres(RendezvousHash, 1, 0)[0] != c.MyHostname ==> contains(postage[callres(RendezvousHash, 1, 0)[0]].KeyValues, string(k)) && postage[callres(RendezvousHash, 1, 0)[0]].KeyValues[string(k)] == v
+//@   ensures callres(RendezvousHash, 1, 0)[0] == c.MyHostname ==> forallv(d string, contains(postage, d) == old(contains(postage, d)))
